@@ -226,13 +226,43 @@ def bfs(task):
                 viols=viols, ops=len(alpha), sample=deepest)
 
 
+def raw_worker(task):
+    """all raw (un)subscribe sequences to a depth without state merging, each
+    followed by probe fires: catches history-dependent behaviour that the
+    canonical state (ordered subscriber tuples) cannot see, and validates that
+    canonicalisation"""
+    first, depth, NL, kind = task
+    World = make_world(NL, kind)
+    base = [o for o, sc in alphabet(2, NL, [0, 1], False) if not sc
+            and o[0] in ("add", "rem", "ra")]
+    n = 0
+    viols = []
+    for rest in itertools.product(base, repeat=depth - 1):
+        seq = [(first, {})] + [(o, {}) for o in rest]
+        n += 1
+        bad, _ = check_transition(World, 2, seq[:-1], seq[-1])
+        if bad:
+            viols.append((seq[:-1], seq[-1], bad[0]))
+            if len(viols) > 50:
+                break
+    return n, viols, NL, kind
+
+
 # ---------------------------------------------------------------- payloads
 def payload_table():
     from pydsol.core.pubsub import (EventType, Event, TimedEvent,
                                     EventProducer, EventListener, EventError)
     decls = [None, {}, {"a": int}, {"a": int, "b": str}, {"x": float},
              {"a": bool}]
-    payloads = [None, "abc", 5, [1], (1, 2), {}, {"a": 1}, {"a": "s"},
+    import collections as _c
+
+    class Lenient(dict):
+        def __missing__(self, key):
+            return 7
+    payloads = [_c.defaultdict(int, {"c": 3}), _c.defaultdict(str, {"a": 1, "x": "q"}),
+                _c.defaultdict(int, {"b": "t", "z": 0}), Lenient({"q": 1}),
+                _c.OrderedDict([("a", 1)]), _c.Counter({"a": 2}),
+                None, "abc", 5, [1], (1, 2), {}, {"a": 1}, {"a": "s"},
                 {"a": 1, "b": "t"}, {"a": 1, "b": 2}, {"a": 1, "c": "t"},
                 {"a": 1, "b": "t", "c": 0}, {"a": None}, {"x": 1.5},
                 {"x": 1}, {"a": True}, {"b": "t"}, {"a": 1.0}]
@@ -288,6 +318,8 @@ def payload_table():
                         made = False
                     except Exception as ex:  # noqa
                         made = "raised " + type(ex).__name__
+                    keys_before = list(pl.keys()) if isinstance(pl, dict) \
+                        else None
                     case = (repr(decl), repr(pl), check, path)
                     if made is True and not ok:
                         bad.append(("malformed-event-created",) + case)
@@ -304,6 +336,12 @@ def payload_table():
                             bad.append(("delivery-count",) + case)
                     if made is not True and sink.got:
                         bad.append(("delivered-refused-event",) + case)
+                    if keys_before is not None and \
+                            list(pl.keys()) != keys_before:
+                        bad.append(("payload-altered-by-the-check",) + case)
+                        for k in list(pl.keys()):
+                            if k not in keys_before:
+                                del pl[k]
     # timestamps
     for ts in stamps:
         for path in ("TimedEvent", "fire_timed"):
@@ -374,6 +412,21 @@ def run(ctx):
             ctx.violation("C08:%s:%s" % (b[0], step[0][0]),
                           "producer (%s): after %s, step %s: %s" % (
                               r["name"], h, step, b), rep, rank=len(h))
+    depth = 4 if quick else 5
+    base = [o for o, sc in alphabet(2, 3, [0, 1], False) if not sc
+            and o[0] in ("add", "rem", "ra")]
+    nraw = 0
+    for n, viols, NL, kind in common.pimap(
+            raw_worker, [(o, depth, 3, "distinct") for o in base]):
+        nraw += n
+        for h, step, b in viols:
+            rep = {"NT": 2, "NL": NL, "hist": h, "step": step, "kind": kind}
+            ctx.violation("C08:raw:%s:%s" % (b[0], step[0][0]),
+                          "producer, raw history %s, step %s: %s" % (
+                              h, step, b), rep, rank=len(h))
+    ctx.part("raw (un)subscribe sequences without state merging",
+             sequences=nraw, depth=depth)
+    trans += nraw
     n, bad = payload_table()
     ctx.part("payload/metadata/timestamp table", cases=n,
              violations=len(bad))
